@@ -264,7 +264,7 @@ def rule_d(repo, chk):
                     w = none_safe_chain(f, c, text)
                     chk.ob('C01.d', w is None, c, '`%s` wraps a context name only after `%s is None` was ruled out (comprehension contexts have no name)' % (short(c, 60), text),
                            'path on which the name may be None: %s' % w if w else '', key='%s:%s|%s' % (m.name, q, norm(c)))
-    chk.floor('C01.d', k, 2, '(Name(..., context.name) constructions)')
+    chk.floor('C01.d', k, 1, '(Name(..., context.name) constructions)')
     cf = repo.cls('jedi.inference.context', 'CompForContext')
     has_name = repo.find_method(cf, 'name') is not None and repo.find_method(cf, 'name')._parent is cf.node
     chk.notes['CompForContext_defines_name'] = has_name
@@ -1222,7 +1222,7 @@ def rule_n(repo, chk):
                 chk.ob('C01.n', w is None, c, '`%s` in %s: the node taken from between call brackets is tested not to be an `argument` before it is inferred' % (short(c, 50), q),
                        'an argument node (*args, key=value, generator) reaches the inference entry point, which asserts on its operator: %s' % w if w else '',
                        key='bracket-content|%s:%s|%s' % (m.name, q, norm(c)))
-    chk.floor('C01.n', n, 3, '(bracket content handed to the inference entry points)')
+    chk.floor('C01.n', n, 2, '(bracket content handed to the inference entry points)')
 
 
 def rule_o(repo, chk):
